@@ -53,7 +53,12 @@ Definition ecode_table : list (string * Z) := [
   ("ttheader.readACLToken#fmt.Errorf", 8); ("ttheader.readKVInfo#fmt.Errorf", 9);
   ("ttheader.Decode#errors.New", 3); ("ttheader.Decode#fmt.Errorf#1", 4);
   ("ttheader.Decode#fmt.Errorf#2", 7); ("ttheader.Decode#fmt.Errorf#3", 8);
-  ("thrift.Skip#thrift.NewProtocolException", 18); ("thrift.skipType#thrift.NewProtocolException", 18);
+  ("thrift.SkipDecoderTpl.Skip#thrift.NewProtocolException", 18); ("thrift.skipType#thrift.NewProtocolException", 18);
+  (* the labels thrift.PrependError adds in the FastRead methods of base/k-base.go (the labels lbl_begin, lbl_field, lbl_skip of Model/FastCodec.v) *)
+  ("base.Base.FastRead#thrift.PrependError#1", 100); ("base.Base.FastRead#thrift.PrependError#2", 200);
+  ("base.Base.FastRead#thrift.PrependError#3", 300);
+  ("base.BaseResp.FastRead#thrift.PrependError#1", 100); ("base.BaseResp.FastRead#thrift.PrependError#2", 200);
+  ("base.BaseResp.FastRead#thrift.PrependError#3", 300);
   (* used by the translator's differential self-test (tools/gotrans/testdata/sem) only *)
   ("sem.inner#fmt.Errorf", 201); ("sem.ErrWrap#errors.New", 202); ("sem.ErrWrap#fmt.Errorf#1", 203);
   ("sem.ErrWrap#fmt.Errorf#2", 204); ("sem.ErrNilDeref#errors.New", 205); ("sem.ErrNilDeref#fmt.Errorf", 206)
@@ -243,3 +248,14 @@ Definition gtable (t : list Z) (i : Z) : res Z :=
 Definition gwrapped (c : Z) : Z := 100 + c.
 Definition gpe_wrap (e : gerror) : res gerror :=
   match e with None => Panic 5 | Some c => Ok (Some (gwrapped c)) end.
+
+(* a pointer receiver *T (T a struct with fields): [isnil] says whether the pointer is nil; p.f
+   panics then (reads: gptr_check; an assignment p.f = x: gptr_set) *)
+Definition gptr_check (isnil : bool) : res unit := if isnil then Panic 5 else Ok tt.
+Definition gptr_set {A} (isnil : bool) (x : A) : res A := if isnil then Panic 5 else Ok x.
+
+(* thrift.PrependError(text, err): panics on nil (err.Error()); otherwise a new error of the same
+   Thrift exception kind as err, identified by the label [k] of the call site plus the code of
+   err (Model/FastCodec.v relabel) *)
+Definition gerr_prepend (k : Z) (e : gerror) : res gerror :=
+  match e with None => Panic 5 | Some c => Ok (Some (k + c)) end.
